@@ -141,12 +141,14 @@ func content(name string) []byte {
 }
 
 // "café" twice: composed (NFC) and decomposed (NFD) - two different names on this file system, like "a" and "A"
-var c04Files = []string{"a", "ab", "b", "abc", "c", "d/a", "d/ab", "da", "e", "big70", "big1m", "caf\u00e9", "cafe\u0301", "A"}
+var c04Files = []string{"a", "ab", "b", "abc", "c", "d/a", "d/ab", "da", "e", "big70", "big1m", "caf\u00e9", "cafe\u0301", "A", "lnA", "lnB"}
 var c04Dirs = []string{"d", "dd", "bulk"}
 
 // c04States is the sequence of content assignments materialised at the same paths.
 func c04States() []map[string]string {
-	base := map[string]string{"a": "x", "ab": "y", "b": "y", "abc": "xy", "c": "k4", "d/a": "x", "d/ab": "k64", "da": "x", "e": "empty", "big70": "k70", "big1m": "m1", "caf\u00e9": "x", "cafe\u0301": "x", "A": "x"}
+	base := map[string]string{"a": "x", "ab": "y", "b": "y", "abc": "xy", "c": "k4", "d/a": "x", "d/ab": "k64", "da": "x", "e": "empty", "big70": "k70", "big1m": "m1", "caf\u00e9": "x", "cafe\u0301": "x", "A": "x",
+		// two symbolic links to the same file: two paths with the content of their target
+		"lnA": "@a", "lnB": "@a"}
 	clone := func(m map[string]string, ch map[string]string) map[string]string {
 		o := map[string]string{}
 		for k, v := range m {
@@ -181,8 +183,20 @@ func materialise(root string, st *hashState) {
 	}
 	st.Sums = map[string]string{}
 	for p, name := range st.Contents {
-		b := content(name)
 		full := filepath.Join(root, p)
+		if strings.HasPrefix(name, "@") {
+			// a symbolic link to another entry: it has the content of its target
+			target := strings.TrimPrefix(name, "@")
+			if cur, err := os.Readlink(full); err != nil || cur != target {
+				_ = os.Remove(full)
+				if err := os.Symlink(target, full); err != nil {
+					core.Fatal("materialise: %v", err)
+				}
+			}
+			st.Sums[p] = core.ShaHex(content(st.Contents[target]))
+			continue
+		}
+		b := content(name)
 		_ = os.MkdirAll(filepath.Dir(full), 0o755)
 		if old, err := os.ReadFile(full); err != nil || !bytes.Equal(old, b) {
 			if err := os.WriteFile(full, b, 0o644); err != nil {
